@@ -187,6 +187,7 @@ def run_sequence(ctx, w, seq, term, detect, rw, link=False, facade=False):
                 nontrivial = True
             w.status, w.sense = (0, None) if evn == "E" else (2, SN.build(0x70, 0, 6, 0x29, pos, 18))
             before = state["reached"]
+            armed_close, armed_open = w.fail_next_close, w.fail_next_open
             cmd = TestUnitReady(E.spc.TEST_UNIT_READY)
             try:
                 dev.execute(cmd)
@@ -194,19 +195,17 @@ def run_sequence(ctx, w, seq, term, detect, rw, link=False, facade=False):
             except Exception as e:  # noqa: BLE001
                 outcome, exc = "raised", e
             sent = state["reached"] - before
-            pend = state["pending_close_failure"] and detect
-            state["pending_close_failure"] = False if detect else state["pending_close_failure"]
-            opend = state["pending_open_failure"] and detect and state["exists"]
-            if detect:
-                state["pending_open_failure"] = False
+            # an injected failure counts for this command when the library consumed it now (it stays armed while the
+            # library has no reason to close / re-open, e.g. because the node is gone)
+            pend = armed_close and not w.fail_next_close
+            opend = armed_open and not w.fail_next_open
+            must_close = armed_close and detect and state["exists"]
+            must_open = armed_open and detect and state["exists"]
             if opend:
                 # the re-open failed: the error must surface, nothing may be sent; the next command recovers
                 state["handle_lost"] = True
                 if outcome == "returned" or sent:
                     fail("reopen_failure_hidden", "re-open of the replaced node failed but execute %s and sgio.execute was reached %d times" % (outcome, sent))
-                if w.fail_next_open:
-                    w.fail_next_open = False
-                    fail("stale_handle_not_reopened", "replugged but no re-open was attempted")
                 continue_after = True
             else:
                 continue_after = False
@@ -221,9 +220,6 @@ def run_sequence(ctx, w, seq, term, detect, rw, link=False, facade=False):
                 # close of the stale handle failed: error may propagate (command then not sent) or not
                 if outcome == "returned" and sent != 1:
                     fail("command_lost", "execute returned but sgio.execute was reached %d times" % sent)
-                if w.fail_next_close:
-                    w.fail_next_close = False  # stale handle was never closed
-                    fail("stale_handle_not_closed", "replugged but the stale handle's close() was never attempted")
             else:
                 if sent != 1:
                     fail("command_not_sent_once", "sgio.execute reached %d times for one execute()" % sent)
@@ -231,6 +227,12 @@ def run_sequence(ctx, w, seq, term, detect, rw, link=False, facade=False):
                     fail("healthy_execute_raises.%s" % type(exc).__name__, "execute on a healthy node raised %r" % exc)
                 if evn == "F" and not isinstance(exc, dev.CheckCondition):
                     fail("check_condition_not_raised", "CHECK CONDITION gave %s" % (type(exc).__name__ if exc else "no exception"))
+            if must_close and w.fail_next_close:
+                w.fail_next_close = False
+                fail("stale_handle_not_closed", "the node was replaced but closing the stale handle was never attempted")
+            if must_open and not must_close and w.fail_next_open:
+                w.fail_next_open = False
+                fail("stale_handle_not_reopened", "the node was replaced but no re-open was attempted")
             if state["exists"] or not detect:
                 quiescent("after exec")
         elif evn == "A":
